@@ -9,12 +9,14 @@ passes (tools/baseline.py against the scratch tree). Writes seeded/<ID>-<k>/{pat
 import glob, json, os, shutil, subprocess, sys
 ROOT = os.path.dirname(os.path.dirname(os.path.abspath(__file__)))
 pid, k = sys.argv[1], sys.argv[2]
-src = f"/tmp/seed/{pid}/out"
+base = os.environ.get("SEED_BASE", "/tmp/seed")
+suffix = os.environ.get("SEED_SUFFIX", "")
+src = f"{base}/{pid}/out"
 patch = f"{src}/variant_{k}.diff"
 demos = [p for p in glob.glob(f"{src}/variant_{k}_demo*") ]
 if not os.path.exists(patch) or not demos:
     sys.exit("missing patch or demo")
-wt = f"/tmp/confirm/{pid}{k}"
+wt = f"/tmp/confirm/{pid}{suffix}{k}"
 env = dict(os.environ, GOFLAGS="-mod=mod", GOPROXY="off")
 env.pop("GOTOOLCHAIN", None); env.pop("GOSUMDB", None)
 def sh(cmd, cwd=None, timeout=1500):
@@ -59,7 +61,7 @@ try:
     meta["ran"] = [runcmd + "  (unmodified: pass)", "git apply patch.diff", "go build ./... ; go build -tags purego ./...", runcmd + "  (with change: fail)", "tools/baseline.py (pinned suite vs BASELINE.json)"]
 finally:
     sh(["git", "-C", "/repo", "worktree", "remove", "--force", wt])
-out = os.path.join(ROOT, "seeded", f"{pid}-{k}")
+out = os.path.join(ROOT, "seeded", f"{pid}-{suffix}{k}")
 os.makedirs(out, exist_ok=True)
 shutil.copy(patch, os.path.join(out, "patch.diff"))
 for d in demos:
